@@ -7,6 +7,7 @@ extern "C" {
 #include <ksi/net_uri.h>
 #include <ksi/signature_helper.h>
 #include <ksi/net_async.h>
+#include <ksi/blocksigner.h>
 }
 using namespace vf;
 
@@ -18,8 +19,8 @@ enum Dev { D_HONEST, D_FOREIGN_ID, D_STALE_ID, D_OTHER_HASH, D_OTHER_LEVEL, D_ST
            D_OTHER_VERSION, D_INCONSISTENT, D_NO_CHAINS, D_HTTP_ERROR, D_CONN_REFUSED, D_CLOSE_MID_REPLY, D_NO_REPLY, D_EXTEND_RESPONSE, D_COUNT };
 static const char *kDevName[] = {"honest", "foreign-id", "stale-id", "other-hash", "other-level", "status", "error-pdu", "error-pdu-status0", "garbage", "truncated", "trailing-bytes", "bad-mac", "other-mac-alg", "other-key", "no-mac", "no-header",
                                  "other-pdu-version", "inconsistent-chains", "no-chains", "http-error", "connection-refused", "close-mid-reply", "no-reply", "extend-response"};
-enum Api { A_SIGN_AGGREGATED, A_CREATE_SIGNATURE, A_SIGN, A_ASYNC, A_COUNT };
-static const char *kApiName[] = {"signAggregated", "createSignature", "Signature_sign", "async"};
+enum Api { A_SIGN_AGGREGATED, A_CREATE_SIGNATURE, A_SIGN, A_ASYNC, A_BLOCK_SIGNER, A_COUNT };
+static const char *kApiName[] = {"signAggregated", "createSignature", "Signature_sign", "async", "block-signer"};
 
 struct Scenario { int transport; /* 0 tcp 1 http */ int api; int version; int macAlg; std::string login; Bytes key; Bytes doc; uint64_t level; int dev; uint64_t status; };
 
@@ -28,7 +29,7 @@ void harness_case(Dec &d, Case &c) {
     sc.transport = d.pick(2); sc.api = (int)d.pick(A_COUNT); sc.version = d.pick(3) == 0 ? 1 : 2; static const int macs[] = {1, 1, 5, 4}; sc.macAlg = macs[d.pick(4)];
     { unsigned ll = 1 + d.pick(10); for (unsigned i = 0; i < ll; i++) sc.login.push_back((char)('a' + d.pick(26))); unsigned kl = d.pick(8) == 0 ? 60 + d.pick(80) : 1 + d.pick(20); for (unsigned i = 0; i < kl; i++) sc.key.push_back((uint8_t)('A' + d.pick(50))); }
     static const int algs[] = {1, 1, 5, 4, 2, 0, 8}; int docAlg = algs[d.pick(7)]; { const AlgInfo *ai = algInfo(docAlg); sc.doc.assign(1 + ai->digestLen, 0); sc.doc[0] = (uint8_t)docAlg; for (size_t i = 1; i < sc.doc.size(); i++) sc.doc[i] = d.byte(); }
-    unsigned lm = d.pick(8); sc.level = lm < 4 ? 0 : (lm < 6 ? d.pick(8) : (lm == 6 ? d.pick(200) : 0)); if (sc.api != A_SIGN_AGGREGATED && sc.api != A_ASYNC) sc.level = 0;
+    unsigned lm = d.pick(8); sc.level = lm < 4 ? 0 : (lm < 6 ? d.pick(8) : (lm == 6 ? d.pick(200) : 0)); if (sc.api != A_SIGN_AGGREGATED && sc.api != A_ASYNC && sc.api != A_BLOCK_SIGNER) sc.level = 0;
     sc.dev = d.pick(3) == 0 ? D_HONEST : (int)(d.raw(2) % D_COUNT); static const uint64_t sts[] = {0x0101, 0x0102, 0x0103, 0x0104, 0x0105, 0x0106, 0x0107, 0x0200, 0x0300, 0x0301, 1, 0xffff, 0x100000000ULL, 0x0100}; sc.status = sts[d.pick(14)];
     if (sc.transport == 0 && sc.dev == D_HTTP_ERROR) sc.dev = D_STATUS; if (sc.transport == 1 && (sc.dev == D_CONN_REFUSED || sc.dev == D_CLOSE_MID_REPLY || sc.dev == D_TRAILING)) sc.dev = D_BAD_MAC;
     bool trustedAlg = algTrusted(docAlg); // deprecated (SHA-1) or unregistered algorithms are untrusted; merely uncomputable ones (SHA-3, SM3) are not
@@ -84,6 +85,9 @@ void harness_case(Dec &d, Case &c) {
     if (sc.api == A_SIGN_AGGREGATED) res = KSI_Signature_signAggregated(ctx, dh, sc.level, &sig);
     else if (sc.api == A_CREATE_SIGNATURE) res = KSI_createSignature(ctx, dh, &sig);
     else if (sc.api == A_SIGN) res = KSI_Signature_sign(ctx, dh, &sig);
+    else if (sc.api == A_BLOCK_SIGNER) { // block signing of a single leaf: the request carries the leaf's hash and level
+        KSI_BlockSigner *bs = nullptr; KSI_BlockSignerHandle *bh = nullptr; res = KSI_BlockSigner_new(ctx, KSI_HASHALG_SHA2_256, nullptr, nullptr, &bs); if (res == KSI_OK) res = KSI_BlockSigner_addLeaf(bs, dh, (int)sc.level, nullptr, &bh);
+        if (res == KSI_OK) res = KSI_BlockSigner_closeAndSign(bs); if (res == KSI_OK) res = KSI_BlockSignerHandle_getSignature(bh, &sig); KSI_BlockSignerHandle_free(bh); KSI_BlockSigner_free(bs); }
     else { // asynchronous service: one request, run until it is handed back (bounded number of rounds; the clock advances)
         KSI_AsyncService *as = nullptr; KSI_SigningAsyncService_new(ctx, &as); res = KSI_AsyncService_setEndpoint(as, uri.c_str(), sc.login.c_str(), keyStr.c_str());
         KSI_AggregationReq *rq = nullptr; KSI_AggregationReq_new(ctx, &rq); KSI_AggregationReq_setRequestHash(rq, KSI_DataHash_ref(dh)); if (sc.level) { KSI_Integer *li = nullptr; KSI_Integer_new(ctx, sc.level, &li); KSI_AggregationReq_setRequestLevel(rq, li); }
